@@ -2,9 +2,9 @@
 import vlib
 
 PRE = """From Coq Require Import ZArith QArith String List.
-From PT Require Import Str Dec Py Loaders Formula FormulaMachine AtomEnv C02Check.
+From PT Require Import Str Dec Py Loaders Formula FormulaMachine AtomEnv Pyparse TableEnv C02Check.
 Import ListNotations."""
-CT = "bool * list op * list (list vobs)"
+CT = "bool * list xop * list (list vobs)"
 
 MANIFEST = dict(
     text=("Theorems (Props/C02.v, axiom-free): for structures of ANY nesting the atoms dictionary built by the "
@@ -29,7 +29,7 @@ def run(ctx):
     nprog, maxlen = (600, 10) if quick else (12000, 30)
     data = vlib.run_harness("c02.py", [ctx.seed, nprog, maxlen], timeout=3000)
     cases, meta = data["cases"], data["meta"]
-    ctx.cov["rule"] = ("random programs (2..%d steps) over formula(atom|dict|nested|Formula), +, n*, +=, aliasing; atoms drawn "
+    ctx.cov["rule"] = ("random programs (2..%d steps) over formula(string|atom|dict|nested|Formula), +, n*, +=, aliasing; atoms drawn "
                        "from all elements/isotopes/ions/isotope ions; 2/3 dyadic-exact stream, 1/3 decimal stream; "
                        "non-trivial = program text distinct; stats: %s" % (maxlen, data["stats"]))
     ctx.cov["samples"] = [meta[i] for i in range(min(3, len(meta)))]
